@@ -35,7 +35,7 @@ def plan(tier):
 
 
 def floors(tier):
-    f = {"nontrivial": 100, "counter:assignments": 2000, "counter:rejected_inputs": 300, "counter:evaluations": 4000}
+    f = {"nontrivial": 100, "counter:twin_assignments": 300, "counter:assignments": 2000, "counter:rejected_inputs": 300, "counter:evaluations": 4000}
     for k in FORMS:
         f["counter:form_" + k] = 50
     for k in BAD:
@@ -74,7 +74,9 @@ def run_case(rng, idx, tier, lane, ctx):
 
     with contextlib.redirect_stdout(io.StringIO()):
         m = G.build(spec, backend="lambda")
+        twin = G.build(spec, backend="lambda")      # a second model object of the same definition: bindings must be per object
     ref = RefModel(spec)
+    twin_shadow = {}
     x = [round(rng.uniform(1.1, 2.0), 4) for _ in spec["states"]]
     shadow = {}
     used_vals = set()
@@ -138,6 +140,19 @@ def run_case(rng, idx, tier, lane, ctx):
         shadow.update(vals)
         forms_seen.add(form)
         counters["assignments"] += 1
+        # interleave an assignment to the twin (different values) and check that neither object sees the other's values
+        if rng.random() < 0.4:
+            tv = {n: fresh_val() for n in P}
+            try:
+                twin.parameters = rng.choice([lambda: [tv[n] for n in P], lambda: dict(tv), lambda: [(n, tv[n]) for n in reversed(P)]])()
+                twin_shadow = dict(tv)
+                counters["twin_assignments"] = counters.get("twin_assignments", 0) + 1
+                got = np.asarray(twin.ode(np.array(x), 0.7), dtype=float)
+                exp = ref.num("ode")(x, 0.7, [twin_shadow[p] for p in P])
+                if got.size != exp.size or not np.allclose(got.reshape(exp.shape), exp, rtol=1e-10, atol=1e-12):
+                    bad("a second model object of the same definition does not use the values assigned to it", twin=dict(twin_shadow))
+            except Exception as e:
+                bad("assignment to a second model object raised", error=short_exc(e), tb=tb_tail(e))
         counters["form_" + form] = counters.get("form_" + form, 0) + 1
         check_eval("assignment in form " + form)
         # ---- a rejected input in between
